@@ -185,11 +185,14 @@ CLAIMED = {
          "src/urcu.c (memb with/without sys_membarrier, mb; call_rcu helper as a cooperative thread) under the shim; random/PCT/one-"
          "preemption sweep/directed schedules replayed by Driver/Lfq.lean on the model; independent oracles (Henzinger-Sezgin-Vafeiadis "
          "FIFO patterns, dummy, count, destroy, gp, page quarantine of freed nodes/dummies, DEADLOCK/BUDGET).",
-    note="Trusted: Lean kernel; SC = x86-TSO for this structure is argued (every shared mutation is a locked cmpxchg; "
-         "private_until_published), the TSO machine is not instantiated; GpSpec composition with the real grace period by interface "
+    note="Trusted: Lean kernel; x86-TSO is mechanised (Lfq/TsoModel.lean: per-thread FIFO store buffers for the plain initialising stores "
+         "of node_init / make_dummy, own-buffer-first loads, the five cmpxchg as locked RMWs needing an empty buffer; tso_simulates_sc / "
+         "tso_step_is_sc_step: every TSO run is an SC run with the same answers; C12_tso_full_holds; necessity of the one machine "
+         "assumption - a locked RMW drains the store buffer - by Tso.Neg.uaf_reachable_without_drain); the classification of accesses "
+         "is cross-checked on every trace (only LD and seq_cst CAS on the queue's words); GpSpec composition with the real grace period by interface "
          "(bp/qsbr not linked); L1 ⊑ L2 on explored schedules only; API contract (operations inside read-side sections, re-enqueue/free "
          "only after a grace period, destroy at quiescence, malloc succeeds).",
-    technique="Lean 4 inductive invariant (26 clauses) + forward-simulation refinement to a sequential FIFO on an executable step-level model; event-level trace refinement of the real source with independent oracles",
+    technique="Lean 4 inductive invariant (26 clauses) + forward-simulation refinement to a sequential FIFO on an executable step-level model + forward simulation TSO -> SC with a store-buffer shape invariant; event-level trace refinement of the real source with independent oracles",
     design_ref="§4 C12, §10.4", engine="lfq"),
  "C10": dict(
     text="Lean 4 theorems on x86-TSO explicit-pc models of cds_wfcq (Wfcq/Model.lean: two queues, any number of threads, per-thread FIFO "
